@@ -153,7 +153,7 @@ def run(ck, facts, tier):
 
     # ---------------- R11.4 sorted before use
     r4 = ck.rule("R11.4", "CurveDF::try_new: a key-sort of the node map lies on every path to the return (supply order cannot matter); sort_keys sorts the payload "
-                          "of each variant; CurveDF { .. } is constructed nowhere else", floor=5)
+                          "of each variant on every path; CurveDF { .. } is constructed nowhere else", floor=6)
     P = cfgmod.Program(facts)
     c = P.cfgs.get("curves::curve::CurveDF::<T, U>::try_new")
     if c is None:
@@ -171,6 +171,12 @@ def run(ck, facts, tier):
     else:
         n = sum(1 for i, t in sk.calls() if re.search(r"indexmap::.*IndexMap.*::sort_keys$", sk.callee_name(t) or ""))
         ck.check(r4, "sort_keys:all-variants", n == 3, "sort_keys sorts %d of the 3 variants" % n, "%s:%d" % (sk.rec["file"], sk.rec["line"]), sample="3 IndexMap::sort_keys calls")
+        sblocks = [i for i, t in sk.calls() if re.search(r"indexmap::.*IndexMap.*::sort_keys$", sk.callee_name(t) or "")]
+        reach = sk.reachable_from(0, avoid=sblocks)
+        rets = sk.returns()
+        ck.check(r4, "sort_keys:unconditional", bool(rets) and not any(b in reach for b in rets),
+                 "sort_keys can return without sorting (a path from entry to the return avoids every IndexMap::sort_keys call)", "%s:%d" % (sk.rec["file"], sk.rec["line"]),
+                 sample="every entry->return path passes an IndexMap::sort_keys call")
     for fn in facts.all_fns():
         for e in hir.walk(fn["body"]):
             if e.get("k") == "struct" and (e.get("ty") or "").startswith("curves::curve::CurveDF<"):
